@@ -1324,11 +1324,18 @@ pub fn precompile_builder(rng: &mut Rng, spec: SpecId, n_eoas: usize) -> Builder
 pub fn gen_precompile(rng: &mut Rng, spec: SpecId, n_txs: usize) -> Block {
     let n_eoas = 2 + rng.below(3);
     let mut b = precompile_builder(rng, spec, n_eoas);
-    // one block in four opens with the life of the codeless vault: store, empty, read
-    let vault_script = rng.below(4) == 0;
-    for k in 0..n_txs.max(if vault_script { 3 } else { 0 }) {
+    // one block in four opens with the life of the codeless vault (store, empty, read); one in
+    // eight with a transaction the ordered commit rejects (nonce too high) followed, two
+    // transactions later, by the state-dependent fatal precompile: the suffix is replayed
+    // sequentially from the rejected one and the error must carry its GLOBAL index
+    let script: &[usize] = match rng.below(8) {
+        0 | 1 => &[16, 17, 18],
+        2 => &[0, 13, 10, 12],
+        _ => &[],
+    };
+    for k in 0..n_txs.max(script.len()) {
         let from = eoa(rng.below(n_eoas));
-        match if vault_script && k < 3 { 16 + k } else { rng.below(19) } {
+        match if k < script.len() { script[k] } else { rng.below(19) } {
             m @ 16..=18 => {
                 let mode = (m - 16) as u64;
                 b.call(rng, from, precompile_addr(9), &[mode], ["vault-store", "vault-empty", "vault-read"][mode as usize]);
@@ -1408,6 +1415,27 @@ pub fn gen_invalid_then_transfers(rng: &mut Rng) -> Block {
     b.desc[i].push_str(" [intrinsic gas]");
     b.transfer(rng, eoa(1), eoa(2), 3);
     b.transfer(rng, eoa(2), eoa(0), 5);
+    b.finish()
+}
+
+/// Witness block for the commit-time nonce gate: a plain transfer, then a transfer from another
+/// sender whose nonce is too high (otherwise valid). In order: executed, skipped.
+pub fn gen_wrong_nonce_second(rng: &mut Rng) -> Block {
+    let mut b = Builder::new(rng, SpecId::SHANGHAI, 3);
+    b.db.insert_eoa(coinbase(), U256::from(5u64), 0);
+    // the two transactions share nothing (distinct senders and recipients, non-zero fees so that
+    // both rewards are deferred): the first attempt of the second one is never invalidated
+    let j = b.transfer(rng, eoa(0), eoa(2), 3);
+    let i = b.transfer(rng, eoa(1), contract(70), 5);
+    let n = b.txs[i].nonce;
+    b.txs[i].nonce = n + 1;
+    b.nonces.insert(eoa(1), n);
+    b.desc[i].push_str(" [nonce too high]");
+    for k in [i, j] {
+        b.txs[k].tx_type = 0;
+        b.txs[k].gas_priority_fee = None;
+        b.txs[k].gas_price = b.basefee as u128 + 2;
+    }
     b.finish()
 }
 
